@@ -1,6 +1,7 @@
 package main
 
 import (
+	"strconv"
 	"fmt"
 	"go/ast"
 	"go/parser"
@@ -447,6 +448,59 @@ func Discharge(obls []*Obligation, opt Options) {
 	}
 	close(ch)
 	wg.Wait()
+	if k, _ := strconv.Atoi(os.Getenv("VERIF_STABILITY")); k > 0 {
+		stabilityReport(obls, opt, k)
+	}
+}
+
+// stabilityReport re-runs every discharged query under k further solver seeds and lists those that are slow or
+// undecided under some seed: the proofs that could turn into false alarms. Development aid (VERIF_STABILITY=k).
+func stabilityReport(obls []*Obligation, opt Options, k int) {
+	var jobs []*Obligation
+	for _, o := range obls {
+		if o.MustFail || o.Result.Answer != "unsat" || o.Result.Solver == "syntactic" || o.Script == "" {
+			continue
+		}
+		jobs = append(jobs, o)
+	}
+	var mu sync.Mutex
+	var lines []string
+	var wg sync.WaitGroup
+	ch := make(chan *Obligation)
+	for w := 0; w < 12; w++ {
+		wg.Add(1)
+		go func() {
+			defer wg.Done()
+			for o := range ch {
+				worst, und := 0.0, 0
+				for s := 1; s <= k; s++ {
+					t0 := time.Now()
+					r := solve(opt.WorkDir, o.fileBase()+"_stab", o.Script, opt.Timeout, opt.Seed+s*13, false)
+					if d := time.Since(t0).Seconds(); d > worst {
+						worst = d
+					}
+					if r.Answer != "unsat" {
+						und++
+					}
+				}
+				if und > 0 || worst > 6 {
+					mu.Lock()
+					lines = append(lines, fmt.Sprintf("UNSTABLE %s path=%d: undecided under %d of %d seeds, slowest %.1fs", o.Name, o.Path, und, k, worst))
+					mu.Unlock()
+				}
+			}
+		}()
+	}
+	for _, j := range jobs {
+		ch <- j
+	}
+	close(ch)
+	wg.Wait()
+	sort.Strings(lines)
+	for _, l := range lines {
+		fmt.Println(l)
+	}
+	fmt.Printf("stability: %d obligations re-run (whole solver portfolio) under %d seeds, %d unstable\n", len(jobs), k, len(lines))
 }
 
 // candidateModel re-solves an undecided obligation without its quantified assumptions.
